@@ -3,7 +3,7 @@ from __future__ import annotations
 
 from .. import scaffolds as S
 from ..engine_ch import Free, Harness
-from ..mdutil import block_parse, build_doc, exc_record, free_doc, get_md, scaffold_frees, shard_extras, stream_view
+from ..mdutil import deep_equal, block_parse, build_doc, exc_record, free_doc, get_md, scaffold_frees, shard_extras, stream_view
 from ..sym import no_tracing, realize
 
 EXPLANATION = (
@@ -138,7 +138,7 @@ def _le_run(params, values):
     except Exception as e:
         return [exc_record(e, "pipeline")], "raised"
     recs = []
-    if stream_view(t1) != stream_view(t2):
+    if not deep_equal(stream_view(t1), stream_view(t2)):
         recs.append({"key": "line-ending-changes-tokens"})
     if h1 != h2:
         recs.append({"key": "line-ending-changes-html"})
@@ -160,7 +160,7 @@ def _nul_run(params, values):
     except Exception as e:
         return [exc_record(e, "pipeline")], "raised"
     recs = []
-    if stream_view(t1) != stream_view(t2) or h1 != h2:
+    if not deep_equal(stream_view(t1), stream_view(t2)) or h1 != h2:
         recs.append({"key": "nul-differs-from-replacement-char"})
     _check_no_cr(t1, recs)
     return recs, h1
